@@ -9,3 +9,4 @@ import Skv.Props.C19
 #print axioms C19_reopen_after_close
 #print axioms C19_reopen_after_crash
 #print axioms C19_refused_only_by_live
+#print axioms C19_reopen_after_failed_open
